@@ -38,7 +38,7 @@ def lower(run, work):
     ll = os.path.join(work, run.name + '.ll')
     flags = ['-std=' + run.std] + (['-fgnuc-version=' + run.gnuc] if run.gnuc else []) + IRFLAGS + (['-fexceptions'] if run.exc else ['-fno-exceptions']) + defs(run.defines)
     flags = [f for f in flags if not (run.opt and f == '-O1')] + (['-' + run.opt] if run.opt else [])
-    if run.shared_points or LINECOV: flags.append('-gline-tables-only')   # line tables tell library code from harness bookkeeping
+    if run.shared_points or LINECOV or getattr(run, 'linetables', False): flags.append('-gline-tables-only')   # line tables tell library code from harness bookkeeping
     r = sh([CLANG] + flags + [src, '-o', ll])
     if r.returncode != 0 and not run.exc and 'exceptions disabled' in r.stderr:
         # the library under test uses try/catch/throw on this tree: lower with exceptions enabled instead (the engine executes invoke/landingpad)
